@@ -25,6 +25,8 @@ pub struct MemoryBoundedQueue<T: Ord> {
 struct PriorityItem<T: Ord> {
     item: T,
     size: usize,
+    #[cfg(ragc_verif)]
+    ticket: u64,
 }
 
 impl<T: Ord> Ord for PriorityItem<T> {
@@ -51,6 +53,8 @@ struct QueueInner<T: Ord> {
     items: BinaryHeap<PriorityItem<T>>, // Max-heap ordered by item priority
     current_size: usize,                // Total bytes currently in queue
     closed: bool,                       // No more pushes allowed
+    #[cfg(ragc_verif)]
+    next_ticket: u64, // insertion ticket (verification hooks only)
 }
 
 impl<T: Ord> MemoryBoundedQueue<T> {
@@ -71,6 +75,8 @@ impl<T: Ord> MemoryBoundedQueue<T> {
                 items: BinaryHeap::new(),
                 current_size: 0,
                 closed: false,
+                #[cfg(ragc_verif)]
+                next_ticket: 0,
             })),
             capacity_bytes,
             not_full: Arc::new(Condvar::new()),
@@ -99,20 +105,35 @@ impl<T: Ord> MemoryBoundedQueue<T> {
 
         // Wait while queue would be too full
         while inner.current_size + size_bytes > self.capacity_bytes && !inner.closed {
+            #[cfg(ragc_verif)]
+            self.verif_event("push_wait", &inner, size_bytes, u64::MAX);
             inner = self.not_full.wait(inner).unwrap();
+            #[cfg(ragc_verif)]
+            self.verif_event("push_wake", &inner, size_bytes, u64::MAX);
         }
 
         // Check if closed while we were waiting
         if inner.closed {
+            #[cfg(ragc_verif)]
+            self.verif_event("refuse", &inner, size_bytes, u64::MAX);
             return Err(PushError::Closed);
         }
 
         // Add item (BinaryHeap maintains priority order)
+        #[cfg(ragc_verif)]
+        let ticket = {
+            inner.next_ticket += 1;
+            inner.next_ticket
+        };
         inner.items.push(PriorityItem {
             item,
             size: size_bytes,
+            #[cfg(ragc_verif)]
+            ticket,
         });
         inner.current_size += size_bytes;
+        #[cfg(ragc_verif)]
+        self.verif_event("admit", &inner, size_bytes, ticket);
 
         // Signal that queue is not empty
         self.not_empty.notify_one();
@@ -127,19 +148,32 @@ impl<T: Ord> MemoryBoundedQueue<T> {
         let mut inner = self.inner.lock().unwrap();
 
         if inner.closed {
+            #[cfg(ragc_verif)]
+            self.verif_event("refuse", &inner, size_bytes, u64::MAX);
             return Err(TryPushError::Closed);
         }
 
         if inner.current_size + size_bytes > self.capacity_bytes {
+            #[cfg(ragc_verif)]
+            self.verif_event("wouldblock", &inner, size_bytes, u64::MAX);
             return Err(TryPushError::WouldBlock);
         }
 
         // Add item (BinaryHeap maintains priority order)
+        #[cfg(ragc_verif)]
+        let ticket = {
+            inner.next_ticket += 1;
+            inner.next_ticket
+        };
         inner.items.push(PriorityItem {
             item,
             size: size_bytes,
+            #[cfg(ragc_verif)]
+            ticket,
         });
         inner.current_size += size_bytes;
+        #[cfg(ragc_verif)]
+        self.verif_event("admit", &inner, size_bytes, ticket);
 
         // Signal that queue is not empty
         self.not_empty.notify_one();
@@ -168,17 +202,25 @@ impl<T: Ord> MemoryBoundedQueue<T> {
 
         // Wait while queue is empty and not closed
         while inner.items.is_empty() && !inner.closed {
+            #[cfg(ragc_verif)]
+            self.verif_event("pull_wait", &inner, 0, u64::MAX);
             inner = self.not_empty.wait(inner).unwrap();
+            #[cfg(ragc_verif)]
+            self.verif_event("pull_wake", &inner, 0, u64::MAX);
         }
 
         // If closed and empty, return None
         if inner.items.is_empty() {
+            #[cfg(ragc_verif)]
+            self.verif_event("eos", &inner, 0, u64::MAX);
             return None;
         }
 
         // Remove highest-priority item (BinaryHeap::pop returns max element)
         let priority_item = inner.items.pop().unwrap();
         inner.current_size -= priority_item.size;
+        #[cfg(ragc_verif)]
+        self.verif_event("take", &inner, priority_item.size, priority_item.ticket);
 
         // Signal that queue has space
         self.not_full.notify_one();
@@ -193,12 +235,16 @@ impl<T: Ord> MemoryBoundedQueue<T> {
         let mut inner = self.inner.lock().unwrap();
 
         if inner.items.is_empty() {
+            #[cfg(ragc_verif)]
+            self.verif_event("empty", &inner, 0, u64::MAX);
             return None;
         }
 
         // Remove highest-priority item (BinaryHeap::pop returns max element)
         let priority_item = inner.items.pop().unwrap();
         inner.current_size -= priority_item.size;
+        #[cfg(ragc_verif)]
+        self.verif_event("take", &inner, priority_item.size, priority_item.ticket);
 
         // Signal that queue has space
         self.not_full.notify_one();
@@ -215,6 +261,8 @@ impl<T: Ord> MemoryBoundedQueue<T> {
     pub fn close(&self) {
         let mut inner = self.inner.lock().unwrap();
         inner.closed = true;
+        #[cfg(ragc_verif)]
+        self.verif_event("close", &inner, 0, u64::MAX);
 
         // Wake up all waiting threads
         self.not_full.notify_all();
@@ -244,6 +292,24 @@ impl<T: Ord> MemoryBoundedQueue<T> {
     /// Get capacity in bytes
     pub fn capacity(&self) -> usize {
         self.capacity_bytes
+    }
+
+    /// Verification hook: one event per queue operation, emitted while the queue mutex is
+    /// held (after the state change), so event order is lock order.
+    #[cfg(ragc_verif)]
+    fn verif_event(&self, kind: &'static str, inner: &QueueInner<T>, size: usize, ticket: u64) {
+        ragc_common::verif::emit(
+            kind,
+            &[
+                ("q", Arc::as_ptr(&self.inner) as usize as i64),
+                ("size", size as i64),
+                ("ticket", ticket as i64),
+                ("cur", inner.current_size as i64),
+                ("len", inner.items.len() as i64),
+                ("closed", inner.closed as i64),
+                ("cap", self.capacity_bytes as i64),
+            ],
+        );
     }
 }
 
